@@ -70,6 +70,7 @@ type rvState struct {
 	ctl         int
 	ret         *rv
 	throwMsg    string
+	throwLine   int64 // line of the throw call (the position a caught error carries)
 	fatalKind   string
 	unsupported string
 	depth       int
@@ -757,6 +758,7 @@ func (s *rvState) expr(e pAst.Expression, env *rvEnv) *rv {
 				return s.unsup("throw arity")
 			}
 			s.throwMsg = s.display(args[0])
+			s.throwLine = int64(n.Span().Start.Line)
 			if s.ctl != rcNone {
 				return rvNull()
 			}
@@ -823,7 +825,7 @@ func (s *rvState) expr(e pAst.Expression, env *rvEnv) *rv {
 		if s.ctl == rcThrow {
 			s.ctl = rcNone
 			s.depth = depth
-			o := &rvObj{keys: []string{"message"}, vals: map[string]*rv{"message": rvStr(s.throwMsg)}}
+			o := &rvObj{keys: []string{"message", "line"}, vals: map[string]*rv{"message": rvStr(s.throwMsg), "line": rvInt(s.throwLine)}}
 			inner := &rvEnv{vars: map[string]*rv{n.CatchIdent.Ident(): {k: 'o', o: o}}, parent: env}
 			return s.block(n.CatchBlock, inner)
 		}
